@@ -1,0 +1,61 @@
+//go:build verif
+
+package report
+
+// Contracts for the verification machinery in /verif (see /verif/DESIGN.md).
+// This file contains only comments; it is compiled to nothing.
+
+//@ prop C20
+
+// Each option closure sets exactly its own field of *opts (`modifies` names one field, so
+// writing any other field fails the frame obligation).
+//@ func MinimumLanguageVersion$1
+//@   requires opts != nil
+//@   modifies opts.MinimumLanguageVersion
+//@   ensures  [field] opts.MinimumLanguageVersion == vers
+//@ func MaximumLanguageVersion$1
+//@   requires opts != nil
+//@   modifies opts.MaximumLanguageVersion
+//@   ensures  [field] opts.MaximumLanguageVersion == vers
+//@ func MinimumStdlibVersion$1
+//@   requires opts != nil
+//@   modifies opts.MinimumStdlibVersion
+//@   ensures  [field] opts.MinimumStdlibVersion == vers
+//@ func MaximumStdlibVersion$1
+//@   requires opts != nil
+//@   modifies opts.MaximumStdlibVersion
+//@   ensures  [field] opts.MaximumStdlibVersion == vers
+
+// What any value of type Option may do: write the Options it is given, nothing else.
+//@ functype Option
+//@   requires arg0 != nil
+//@   modifies *arg0
+
+//@ extern (honnef.co/go/tools/analysis/report.Positioner).Pos() token.Pos
+//@   pure
+//@ extern (golang.org/x/tools/go/analysis.Pass).Report(d analysis.Diagnostic)
+//@ extern path/filepath.Ext(path string) string
+//@   pure
+
+//@ func DisplayPosition
+//@   pure
+//@   trusted
+
+//@ func getRange
+//@   trusted
+
+// v lies in [lo, hi]; an empty bound is no bound.
+//@ ghost inrange(lo string, hi string, v string) bool = (lo == "" || version.Compare(lo, v) <= 0) && (hi == "" || version.Compare(hi, v) >= 0)
+
+// From the property: a problem restricted to a range of language / standard-library versions is
+// reported exactly when the effective versions of the file lie in the ranges (and it is not
+// filtered as generated code).
+//@ func Report
+//@   requires pass != nil && pass.TypesInfo != nil && pass.Pkg != nil && istype(pass.ResultOf[tokenfile.Analyzer], map[*token.File]*ast.File)
+//@   requires istype(pass.ResultOf[generated.Analyzer], map[string]generated.Generator)
+//@   may_panic
+//@   loop 1   modifies *cfg
+//@   counts   reported calls analysis.(Pass).Report
+//@   ensures  [atmostonce] count(reported) <= 1
+//@   ensures  [iff] count(reported) == 1 <==> (inrange(cfg.MinimumLanguageVersion, cfg.MaximumLanguageVersion, langVersion) && inrange(cfg.MinimumStdlibVersion, cfg.MaximumStdlibVersion, stdlibVersion) && !(cfg.FilterGenerated && DisplayPosition(pass.Fset, node.Pos()).Filename in astype(pass.ResultOf[generated.Analyzer], map[string]generated.Generator)))
+//@   at call code.LanguageVersion#1 assert [pre] pass.TypesInfo != nil && istype(pass.ResultOf[tokenfile.Analyzer], map[*token.File]*ast.File)
